@@ -43,11 +43,12 @@ def make_case(args):
         try:
             vals = coregen.valuations(dd, rng, max_cycles, sticky)
             lines = coregen.run_design(dd, vals)
-            out.append({"design": D, "raised": False, "exc": "", "cycles": lines, "seed": seed, "attempt": attempt})
+            out.append({"design": D, "raised": False, "exc": "", "cycles": lines, "seed": seed, "attempt": attempt,
+                        "tree": dd})
             break
         except Exception as ex:  # noqa: BLE001 - whatever elaboration raises
             out.append({"design": D, "raised": True, "exc": f"{type(ex).__name__}: {str(ex)[:160]}",
-                        "cycles": [], "seed": seed, "attempt": attempt})
+                        "cycles": [], "seed": seed, "attempt": attempt, "tree": dd})
             if not _shrink(d, rng, str(ex)):
                 break
     return out
@@ -210,7 +211,10 @@ def run_core(rep: Report, pid: str, *, n_designs: int, max_cycles: int, opts: li
                                                        "attempt": c["attempt"]},
                            "clauses": sorted(r["clauses"]), "line": ln, "verdict": r.get("verdict"),
                            "raised": c["raised"], "exc": c["exc"], "design": c["design"],
-                           "observed": c["cycles"][ln - 1] if ln >= 1 else None})
+                           "observed": c["cycles"][ln - 1] if ln >= 1 else None,
+                           "tree": c.get("tree"),
+                           "inputs": [{"inp": x["inp"][:c["tree"]["nin"]], "args": x["args"], "mouts": x["mouts"]}
+                                      for x in c["cycles"][:max(ln, 0) + 1]] if c.get("tree") else None})
         else:
             other += 1
     rep.coverage["rejections_attributed_to_other_properties"] = other
@@ -299,8 +303,22 @@ def core_check(rep: Report, pid: str, opts, n_quick, n_thorough, cyc_quick=128, 
 
 
 def replay_case(rep: Report, pid: str, path: str):
-    """Rebuild the design stored in a replay file with the current /repo and judge it again."""
+    """Rebuild the design stored in a replay file with the current /repo, re-run the recorded input
+    valuations and judge the result again with TxnCoreTrace."""
     d = json.load(open(path))
-    seed, attempt = d["cfg"]["seed"], d["cfg"]["attempt"]
-    raise tlc.MachineryError("replay of core cases: rerun `VERIF_SEED=%d ./check %s` (case seed %s attempt %s is "
-                             "regenerated deterministically from the seed)" % (rep.seed, pid, seed, attempt))
+    tree = d.get("tree")
+    if not tree:
+        raise tlc.MachineryError("replay file carries no design tree")
+    D = coregen.flatten(copy.deepcopy(tree))
+    try:
+        lines = coregen.run_design(tree, d.get("inputs") or [])
+        case = {"design": D, "raised": False, "exc": "", "cycles": lines, "seed": d["cfg"]["seed"], "attempt": 0, "tree": tree}
+    except Exception as ex:  # noqa: BLE001
+        case = {"design": D, "raised": True, "exc": f"{type(ex).__name__}: {str(ex)[:160]}", "cycles": [],
+                "seed": d["cfg"]["seed"], "attempt": 0, "tree": tree}
+    res, acc, rej, dev = validate([case])
+    rep.add("traces_validated_against_impl", 1)
+    for r in rej:
+        if set(CLAUSES[pid]) & set(r["clauses"]):
+            rep.violation({"component": "core", "cfg": d["cfg"], "clauses": sorted(r["clauses"]), "line": r["line"],
+                           "design": D, "tree": tree, "inputs": d.get("inputs")})
